@@ -444,9 +444,9 @@ def st_steered_hbond(files):
 
     return st.fixed_dictionaries({
         "kind": st.just("steered-hbond"), "file": st.sampled_from(files), "pair": st.integers(0, 10 ** 6),
-        "contact": st.integers(0, 10 ** 6), "what": st.sampled_from(["base", "base", "bph", "br", "angle", "angle", "cistrans"]),
+        "contact": st.integers(0, 10 ** 6), "what": st.sampled_from(["base", "base", "bph", "br", "angle", "angle", "cistrans", "bphtorsion"]),
         "bound": st.sampled_from([50.0, 130.0]),
-        "delta": st.sampled_from([1e-5, 1e-4, 1e-3, 1e-2, 0.1]), "side": st.sampled_from([-1, 1]), "swap": st.booleans()})
+        "delta": st.sampled_from([1e-5, 1e-4, 1e-3, 1e-2, 0.1, 0.5]), "side": st.sampled_from([-1, 1]), "swap": st.booleans()})
 
 
 @functools.lru_cache(maxsize=None)
@@ -476,6 +476,8 @@ def build_steered_hbond(case, info=None):
         return _steer_cis_trans(s3, rr, i, j, case, info)
     if case["what"] == "angle":
         return _steer_angle(s3, rr, i, j, case, info)
+    if case["what"] == "bphtorsion":
+        return _steer_bph_torsion(s3, rr, i, j, case, info)
     cand = _atom_pairs(rr[i], rr[j], case["what"])
     if not cand:
         if info is not None:
@@ -497,6 +499,51 @@ def build_steered_hbond(case, info=None):
         return xyz + shift if ri == j else xyz
 
     return rebuild(s3, keep={i, j}, point_fn=pf)
+
+
+SPLIT_DONORS = {"A": ("N1", "C6", "N6"), "G": ("N3", "C2", "N2"), "C": ("N3", "C4", "N4")}
+
+
+def _steer_bph_torsion(s3, rr, i, j, case, info):
+    """the amino donor of residue i (A N6, G N2, C N4) and a phosphate / ribose oxygen of residue j: j is first moved
+    along the donor-oxygen line to 3.5 A (a clear contact) and then rotated about the C-N bond axis of the donor, which
+    changes the torsion ring-N, ring-C, donor, oxygen by exactly the rotation angle and leaves the distance alone: the
+    torsion that separates the two classes of that donor (6|7, 1|3) sits at +-90 +- delta"""
+    ri, rj = rr[i], rr[j]
+    trip = SPLIT_DONORS.get(ri.letter)
+    oxy = [a for a in (geomref.R_PHOSPHATE + geomref.R_RIBOSE) if a in rj.atoms]
+    if trip is None or any(a not in ri.atoms for a in trip) or not oxy:
+        if info is not None:
+            info["steer_skipped"] = True
+        return rebuild(s3, keep={i, j})
+    p, q, d = (ri.atoms[a] for a in trip)
+    name = oxy[case["contact"] % len(oxy)]
+    a0 = rj.atoms[name]
+    d0 = float(np.linalg.norm(a0 - d))
+    axis = d - q
+    if d0 < 1e-6 or np.linalg.norm(axis) < 1e-6:
+        if info is not None:
+            info["steer_skipped"] = True
+        return rebuild(s3, keep={i, j})
+    shift = (3.5 - d0) * (a0 - d) / d0
+    axis = axis / np.linalg.norm(axis)
+    t0 = geomref.dihedral_deg(p, q, d, a0 + shift)
+    if np.isnan(t0):
+        if info is not None:
+            info["steer_skipped"] = True
+        return rebuild(s3, keep={i, j})
+    target = (90.0 + case["side"] * case["delta"]) * (1 if t0 >= 0 else -1)
+    for sense in (1, -1):
+        R = _rot_about(axis, sense * (target - t0))
+        a1 = R @ (a0 + shift - d) + d
+        t1 = geomref.dihedral_deg(p, q, d, a1)
+        if abs(t1 - target) < 1e-8 and abs(float(np.linalg.norm(a1 - d)) - 3.5) < 1e-9:
+            if info is not None:
+                info["steered_bph_torsion"] = (trip[2], name, target)
+            return rebuild(s3, keep={i, j}, point_fn=lambda xyz, r, k, R=R: R @ (xyz + shift - d) + d if r == j else xyz)
+    if info is not None:
+        info["steer_skipped"] = True
+    return rebuild(s3, keep={i, j})
 
 
 def _steer_cis_trans(s3, rr, i, j, case, info):
